@@ -57,6 +57,9 @@ type Broker struct {
 	Connects int
 	ProtoErr []string // protocol violations by the client
 	st       map[int]*bconn
+	// SkipResend: when set and true for a message, its retransmission at a
+	// reconnect is postponed (the specification sets no deadline for it)
+	SkipResend func(m *OutMsg) bool
 	// Hold: when set, responses are held back in Held instead of being queued
 	Hold          func(c *Conn, p Packet) bool
 	Held          []HeldPkt
@@ -200,6 +203,11 @@ func (b *Broker) onPacket(c *Conn, st *bconn, p *Packet) {
 		for _, m := range sess.Out {
 			switch m.Stage {
 			case 1:
+				if b.SkipResend != nil && b.SkipResend(m) {
+					w.Probe("retransmission_withheld")
+					w.Ev("broker", c.id, "retransmission of %q (id %#04x) postponed", trunc(m.Topic, 24), m.ID)
+					continue
+				}
 				m.Sends++
 				b.send(c, EncPublish(m.QoS, true, m.Retain, m.ID, m.Topic, m.Payload))
 			case 2:
